@@ -139,6 +139,58 @@ def pool_factory(ck):
     ck.require(n >= 1, 'pagination: no complete path')
 
 
+def trio_factory(ck):
+    prog = ck.program('terraswap_factory', 'white_whale_std')
+    TR = UNIVERSE[:3]
+    perms = list(itertools.permutations(TR, 3))
+    creators = perms if ck.tier == 'thorough' else [perms[0], perms[3]]
+    def create_msg(it, t):
+        c = it.ctx
+        pf = it.mk(PN + 'trio::PoolFee', protocol_fee=it.mk('white_whale_std::fee::Fee', share=DEC(c.sym('ct_fee_p', 64))), swap_fee=it.mk('white_whale_std::fee::Fee', share=DEC(c.sym('ct_fee_s', 64))),
+                   burn_fee=it.mk('white_whale_std::fee::Fee', share=DEC(0)))
+        return it.mkv(FX, 'CreateTrio', asset_infos=Agg('array', [ainfo(it, a) for a in t]), pool_fees=pf, amp_factor=c.sym('ct_amp', 64), token_factory_lp=False)
+    for t in creators:
+        for q in perms:
+            tag = '%s.%s' % ('_'.join(a[1] for a in t), '_'.join(a[1] for a in q))
+            def body(it, t=t, q=q):
+                it.extra = {}; c = it.ctx; pf_world(it); env = mk_env(it, 10**18)
+                r1 = enter(it, 'terraswap_factory', 'execute', env, mk_info('owner', []), create_msg(it, t))
+                if r1.variant != 'Ok': raise PathPruned()
+                it.extra['r1'] = r1
+                addr = 'new_trio_addr'
+                ans = it.mk(PN + 'asset::TrioInfo', asset_infos=Agg('array', [ainfo(it, a) for a in t]), contract_addr=Str(addr), liquidity_token=it.mkv(AI, 'Token', contract_addr=Str('lp_of_' + addr)),
+                            asset_decimals=Agg('array', [6, 6, 6]))
+                it.world.smart_table.append((addr, it.mkv(PN + 'trio::QueryMsg', 'Trio'), ans))
+                r2 = enter(it, 'terraswap_factory', 'reply', env, None, instantiate_reply(2, addr))
+                if r2.variant != 'Ok': raise PathPruned()
+                it.extra['entries'] = [(list(k), dup(v)) for k, v in it.world.storage['trio_info'].entries]
+                it.extra['q'] = enter(it, 'terraswap_factory', 'query', env, None, it.mkv(FQ, 'Trio', asset_infos=Agg('array', [ainfo(it, a) for a in q])))
+                it.extra['r3'] = enter(it, 'terraswap_factory', 'execute', env, mk_info('owner', []), create_msg(it, q))
+                it.extra['r4'] = enter(it, 'terraswap_factory', 'execute', env, mk_info('owner', []), it.mkv(FX, 'RemoveTrio', asset_infos=Agg('array', [ainfo(it, a) for a in q])))
+                it.extra['n_after_remove'] = len(it.world.storage['trio_info'].entries)
+                return enter(it, 'terraswap_factory', 'execute', env, mk_info('owner', []), create_msg(it, t))
+            n = 0
+            for p in ck.explore(prog, body, 'trio_factory.' + tag):
+                if 'r4' not in p.extra: continue
+                n += 1
+                subs = messages(p.extra['r1'].fields[0]); ents = p.extra['entries']
+                okm = len(subs) == 1 and subs[0][1].variant == 'Wasm' and subs[0][1].fields[0].variant == 'Instantiate' and subs[0][0].fields[3].variant == 'Success'
+                ck.oblige('C19.factory.trio.create.submsg.' + tag, p, not okm or zint(subs[0][1].fields[0].fields[1]) != 12, 'one instantiate submessage with the configured trio code id (reply on success)')
+                ck.oblige('C19.factory.trio.reply.one_entry.' + tag, p, len(ents) != 1, 'the reply registers exactly one entry')
+                if len(ents) == 1:
+                    g = lambda v, nm: [x for x, f in zip(v.fields, prog.adts[v.name]['variants'][0]['fields']) if f[0] == nm][0]
+                    ent = ents[0][1]
+                    ck.oblige('C19.factory.trio.reply.entry.' + tag, p, not (same(g(ent, 'contract_addr').fields[0], 'new_trio_addr') and same(g(ent, 'liquidity_token').fields[0].fields[0], 'lp_of_new_trio_addr') and
+                              all(same(g(ent, 'asset_infos').fields[i].fields[0].fields[0] if isinstance(g(ent, 'asset_infos').fields[i].fields[0], Agg) else g(ent, 'asset_infos').fields[i].fields[0], t[i][1]) for i in range(3))),
+                              'the registry entry holds the reply address, the child\'s LP token and the assets that were instantiated')
+                qv = p.extra['q']
+                ck.oblige('C19.factory.key.perm.trio.' + tag, p, not (qv.variant == 'Ok' and same(qv.fields[0].fields[0].payload.fields[1], 'new_trio_addr')), 'the registry finds the trio whatever the order of the assets')
+                r3 = p.extra['r3']
+                ck.oblige('C19.factory.create.dup.trio.' + tag, p, not (r3.variant == 'Err' and deref(r3.fields[0]).variant == 'ExistingTrio'), 'a second trio for the same unordered assets is refused')
+                ck.oblige('C19.factory.trio.remove_then_create.' + tag, p, not (p.extra['r4'].variant == 'Ok' and p.extra['n_after_remove'] == 0 and p.ok), 'a removed trio disappears (whatever order it is named in) and can be created again')
+            ck.require(n >= 1, 'trio factory history %s: incomplete' % tag)
+
+
 def vault_factory(ck):
     prog = ck.program('vault_factory', 'white_whale_std')
     VFX = C16.VFX
@@ -227,6 +279,22 @@ def router_routes(ck):
     import c15 as C15
     prog = ck.program('terraswap_router', 'white_whale_std')
     RX = C16.RX
+    # two hops: the first is a registered pair whose simulation of 1 unit returns any amount (0 included), the second is not registered
+    def body2(it):
+        c = it.ctx; C16.router_setup(it)
+        a, b, d = UNIVERSE[0], UNIVERSE[1], UNIVERSE[3]
+        it.world.smart_table.append(('factory_contract', it.mkv(FQ, 'Pair', asset_infos=Agg('array', [ainfo(it, a), ainfo(it, b)])), pair_info_answer(it, 'the_pair', a, b)))
+        it.world.smart_table.append(('factory_contract', it.mkv(FQ, 'Pair', asset_infos=Agg('array', [ainfo(it, b), ainfo(it, d)])), Opaque('query_error')))
+        sim = it.mk(PN + 'pair::SimulationResponse', return_amount=U128(c.sym('ret', 64)), spread_amount=U128(0), swap_fee_amount=U128(0), protocol_fee_amount=U128(0), burn_fee_amount=U128(0))
+        it.world.smart_table.append(('the_pair', it.mkv(PN + 'pair::QueryMsg', 'Simulation', offer_asset=it.mk(PN + 'asset::Asset', info=ainfo(it, a), amount=U128(1))), sim))
+        op = lambda x, y: it.mkv(PN + 'router::SwapOperation', 'TerraSwap', offer_asset_info=ainfo(it, x), ask_asset_info=ainfo(it, y))
+        rt = it.mk(PN + 'router::SwapRoute', offer_asset_info=ainfo(it, a), ask_asset_info=ainfo(it, d), swap_operations=VecV([op(a, b), op(b, d)]))
+        return enter(it, 'terraswap_router', 'execute', mk_env(it, 10**18), mk_info('owner', []), it.mkv(RX, 'AddSwapRoutes', swap_routes=VecV([rt])))
+    n = 0
+    for p in ck.explore(prog, body2, 'router.add_routes.second_hop_unregistered'):
+        n += 1
+        ck.oblige('C19.router.routes.only_registered.hop2', p, p.ok or len(p.world.writes) != 0, 'a route whose second hop is not a registered pair is refused whatever the first hop returns for one unit, and nothing is stored')
+    ck.require(n >= 1, 'router add routes (2 hops): no path')
     for registered in (True, False):
         def body(it, registered=registered):
             c = it.ctx; C16.router_setup(it)
@@ -246,10 +314,10 @@ def router_routes(ck):
 
 def main():
     ck = Check('C19')
-    pool_factory(ck); vault_factory(ck); incentive_factory(ck); router_routes(ck)
+    pool_factory(ck); trio_factory(ck); vault_factory(ck); incentive_factory(ck); router_routes(ck)
     ck.bounds.update(assets='universe of 3 native + 1 cw20 assets; quick: 4 ordered pairs, thorough: all 12', registry='pagination over 3 stored pairs with a symbolic page size',
                      symbolic='decimals, code ids, fees, page size; asset names and reply addresses concrete (byte-string key code)')
-    ck.outside += ['collisions of un-delimited concatenated byte keys', 'trio registry (same code shape as pairs)', 'pagination of vaults / incentives', 'router executing hops only through registered pairs: C14/C15 router obligations']
+    ck.outside += ['collisions of un-delimited concatenated byte keys', 'pagination of vaults / incentives', 'router executing hops only through registered pairs: C14/C15 router obligations']
     return ck.finish()
 
 
